@@ -188,6 +188,9 @@ func c13Exec(c *c13Case) {
 		fmt.Fprintf(&b, "%s :\n    %s\n;\n\n", sgName(nt.Sym), body)
 	}
 	c.Text = b.String()
+	if renderOnly {
+		return
+	}
 	g, err := compiler.Compile(context.Background(), "sg.tm", c.Text, compiler.Params{})
 	if err != nil {
 		other := 0
